@@ -120,13 +120,14 @@ class DescriptorTransaction(_TransactionBase):
             raise ValueError(msg)
         if adjust_descriptor_version:
             self._mdib.descriptions.set_version(descriptor_container)
+        if state_container is not None and state_container.DescriptorHandle != descriptor_handle:
+            # checked before the descriptor is stored: a rejected call must not leave the descriptor behind
+            msg = f'State {state_container.DescriptorHandle} does not match descriptor {descriptor_handle}!'
+            raise ValueError(msg)
         if descriptor_container.source_mds is None:
             self._mdib.xtra.set_source_mds(descriptor_container)
         self.descriptor_updates[descriptor_handle] = TransactionItem(None, descriptor_container)
         if state_container is not None:
-            if state_container.DescriptorHandle != descriptor_handle:
-                msg = f'State {state_container.DescriptorHandle} does not match descriptor {descriptor_handle}!'
-                raise ValueError(msg)
             self.add_state(state_container)
 
     def remove_descriptor(self, descriptor_handle: str):
@@ -796,6 +797,16 @@ class ContextStateTransaction(_TransactionBase):
                   modified_handles: list[str],
                   adjust_version_counter: bool = True):
         """Insert or update a context state in mdib."""
+        # check all handles before one of them is written: a rejected call must not leave a part of itself
+        # in the transaction (the application can handle the exception and go on).
+        for handle in modified_handles:
+            state_container = entity.states.get(handle)
+            if state_container is None:
+                if self._mdib.context_states.handle.get_one(handle, allow_none=True) is None:
+                    msg = f'invalid handle {handle}!'
+                    raise KeyError(msg)
+            elif not state_container.is_context_state:
+                raise ApiUsageError('Transaction only handles context states!')
         for handle in modified_handles:
             state_container = entity.states.get(handle)
             old_state = self._mdib.context_states.handle.get_one(handle, allow_none=True)
